@@ -11,6 +11,7 @@ use std::marker::PhantomData;
 pub trait Elem:
     Sized + Clone + PartialEq + Eq + PartialOrd + Ord + Hash + fmt::Debug + 'static
 {
+    #[allow(dead_code)]
     const KIND: u8;
     /// elements of this kind have an identity (`id` field, live set, zombie detection)
     const HAS_ID: bool = false;
